@@ -24,7 +24,7 @@ func init() {
 			r.Cov["traces_validated_against_impl"] = m.Counts["decodes"]
 			r.Cov["evaluations"] = m.Counts["decodes"]
 			r.Cov["distinct_nontrivial"] = len(m.Outc)
-			r.Cov["rule"] = "state = mutated byte string; every state is decoded by the real (*conn).readRequest twice (error-level and debug-level logger) under recover(); states are deduplicated per first-mutation subtree (sum is an upper bound on globally distinct states); distinct_nontrivial = distinct (operation, outcome class) pairs where outcome is decoded / error class / panic site"
+			r.Cov["rule"] = "state = mutated byte string; every state is decoded by the real (*conn).readRequest in three contexts (first frame with an error-level logger, first frame with a debug-level logger, second frame after a valid request on the same connection) under recover(); states are deduplicated per first-mutation subtree (sum is an upper bound on globally distinct states); distinct_nontrivial = distinct (operation, outcome class) pairs where outcome is decoded / error class / panic site"
 			r.Cov["samples"] = m.Samp
 			r.Cov["canonical_packets"] = m.Counts["canonical"]
 			r.Cov["depth1_states"] = m.Counts["depth1"]
@@ -262,20 +262,39 @@ func opOf(b []byte) string {
 	return "?"
 }
 
+var c02prefix = canonReq("bind").Bytes()
+
+// c02decode decodes b in three contexts: first frame of a fresh connection (error-level and debug-level
+// logger) and second frame of a connection whose first frame was a valid request.
 func c02decode(c *Ctx, opname string, b []byte, desc string) {
-	for _, dbg := range []bool{false, true} {
+	for ctx := 0; ctx < 3; ctx++ {
 		c.Count("decodes", 1)
 		var err error
 		ok := false
 		k := try(func() {
-			r, e := decode(b, 1, dbg)
-			err = e
-			ok = r != nil
+			switch ctx {
+			case 0, 1:
+				r, e := decode(b, 1, ctx == 1)
+				err = e
+				ok = r != nil
+			case 2:
+				vc, _, e := newSeam(append(append([]byte(nil), c02prefix...), b...), 7, nil, quietLogger)
+				if e != nil {
+					err = e
+					return
+				}
+				if _, e := vc.ReadRequest(1); e != nil {
+					panic("harness: the valid first frame does not decode: " + e.Error())
+				}
+				r, e := vc.ReadRequest(2)
+				err = e
+				ok = r != nil
+			}
 		})
 		switch {
 		case k != "":
 			c.Outcome(opname + ":" + k)
-			c.Report(k, fmt.Sprintf("decoding %x (%s) panicked", trunc(string(b)), desc), map[string]string{"hex": hex.EncodeToString(b), "mutation": desc})
+			c.Report(k, fmt.Sprintf("decoding %x (%s, context %s) panicked", trunc(string(b)), desc, [...]string{"first frame", "first frame, debug logger", "second frame after a valid bind"}[ctx]), map[string]string{"hex": hex.EncodeToString(b), "mutation": desc})
 		case err != nil:
 			c.Outcome(opname + ":error")
 		case ok:
